@@ -60,6 +60,8 @@ func handle(line string) string {
 		return lexRun(string(b), f[1] == "n")
 	case "TREE":
 		return treeServe(line)
+	case "HANDLER":
+		return handlerServe(f)
 	case "SPEC":
 		if len(f) != 2 {
 			return "BADREQ"
@@ -87,6 +89,15 @@ func handle(line string) string {
 			return "BADREQ"
 		}
 		return splitRun(string(b))
+	case "EXPR":
+		if len(f) != 2 {
+			return "BADREQ"
+		}
+		b, ok := unhex(f[1])
+		if !ok {
+			return "BADREQ"
+		}
+		return exprRun(string(b))
 	case "POS":
 		if len(f) != 4 {
 			return "BADREQ"
